@@ -5,6 +5,7 @@ func init() {
 		ID:    "C08",
 		Title: "Lexing and parsing terminate on every input and end in a program or an error",
 		Rules: []string{
+			"R-NILRET: on the load path the result of a parse is used only after its errors were tested",
 			"R-SHARED-RW: no package-level variable is both written and read on the render paths (state kept between calls: a shared environment for data-less renders, a cache of converted data or parsed programs)",
 			"R-RECDEPTH: every cycle of the call graph (VTA, function tables included) among the lexing and parsing functions runs through a depth guard; a cycle without one is a recursion whose depth the input decides (stack overflow ends the process)",
 			"R-LOADREC: the loader functions of the root package do not call each other in a cycle (loading is bounded by the files and the uses in them)",
@@ -20,6 +21,7 @@ func init() {
 		NotDecided:  "TODO",
 		Assumptions: trustedBase,
 		Run: func(m *Model, s *Sink) {
+			m.RunNilRet(s, "R-NILRET", m.reachableFns(m.Roots().Load))       // a nil program is not touched before its errors were tested
 			m.RunCodeEnd(s, "R-DELIM")                                       // a token that may end embedded code is not skipped silently where a statement is expected
 			m.RunSlotListEnd(s, "R-DELIM")                                   // a component use with slots is closed by its own @end
 			m.RunSharedWrites(s, "R-SHARED-RW", m.Roots().Render, "history") // what one render leaves behind must not reach the next (a shared environment for data-less calls, a cache of bound data, a memo of parsed strings)
@@ -38,7 +40,7 @@ func init() {
 			m.newAssertChecker(s).Run("R-ASSERT", lp)
 			m.newBoundsChecker(s).Run("R-BOUNDS", "R-DIVGUARD", lp)
 			m.RunPanicCall(s, "R-PANICCALL", lp)
-			m.RunRecDepth(s, "R-RECDEPTH", lp, 2) // the statement and the expression descent
+			m.RunRecDepth(s, "R-RECDEPTH", lp, 2, false) // the statement and the expression descent
 		},
 	})
 }
